@@ -243,10 +243,6 @@ class NixSourceCode:
                     return resolve_nested(target.value, scopes=scopes)
                 case FunctionDefinition():
                     output = target.output
-                    if isinstance(output, FunctionCall):
-                        argument = call_argument(output)
-                        if argument is not None:
-                            return argument
                     if output is None:
                         raise ValueError(
                             "Top-level expression must be an attribute set"
